@@ -26,13 +26,13 @@ type Prop struct {
 	Rule        string // how cases are generated and what makes one non-trivial
 	Assumptions []string
 	Exhaustive  func(tier string) bool
-	N           func(tier string) int            // number of cases for a tier
-	Run         func(c *Ctx, idx int)            // run case idx; record observations in c
+	N           func(tier string) int              // number of cases for a tier
+	Run         func(c *Ctx, idx int)              // run case idx; record observations in c
 	Floors      func(tier string) map[string]int64 // minimal observation counts (vacuity guard)
-	Workers     int                              // 0 = default
-	Race        bool                             // needs the -race build
-	CPUBound    int                              // seconds of CPU per case before "hang" (0 = default 60)
-	PostParent  func(p *Parent)                  // extra parent-side work after workers ended
+	Workers     int                                // 0 = default
+	Race        bool                               // needs the -race build
+	CPUBound    int                                // seconds of CPU per case before "hang" (0 = default 60)
+	PostParent  func(p *Parent)                    // extra parent-side work after workers ended
 }
 
 var props = map[string]*Prop{}
@@ -43,15 +43,15 @@ func register(p *Prop) { props[p.ID] = p }
 // Worker side
 
 type msg struct {
-	T        string           `json:"t"` // "v" violation, "p" partial, "done", "note"
-	Idx      int              `json:"idx,omitempty"`
-	Sig      string           `json:"sig,omitempty"`
-	Msg      string           `json:"msg,omitempty"`
-	Wit      json.RawMessage  `json:"wit,omitempty"`
-	Calls    int64            `json:"calls,omitempty"`
-	Cases    int64            `json:"cases,omitempty"`
-	Counters map[string]int64 `json:"counters,omitempty"`
-	Sigs     []uint64         `json:"sigs,omitempty"`
+	T        string            `json:"t"` // "v" violation, "p" partial, "done", "note"
+	Idx      int               `json:"idx,omitempty"`
+	Sig      string            `json:"sig,omitempty"`
+	Msg      string            `json:"msg,omitempty"`
+	Wit      json.RawMessage   `json:"wit,omitempty"`
+	Calls    int64             `json:"calls,omitempty"`
+	Cases    int64             `json:"cases,omitempty"`
+	Counters map[string]int64  `json:"counters,omitempty"`
+	Sigs     []uint64          `json:"sigs,omitempty"`
 	Samples  []json.RawMessage `json:"samples,omitempty"`
 }
 
@@ -75,6 +75,7 @@ type Ctx struct {
 
 	curIdx    int
 	caseStart time.Duration // process CPU at case start
+	caseBound time.Duration // CPU bound of the case in flight (0 = the property's default)
 	caseMu    sync.Mutex
 	curInput  func() any // materialised input of the call in flight (for crash witnesses)
 	violated  int
@@ -225,12 +226,15 @@ func workerMain(p *Prop, tier string, seed uint64, shard, nshards, from, only in
 		for {
 			time.Sleep(500 * time.Millisecond)
 			c.caseMu.Lock()
-			start, idx, inp := c.caseStart, c.curIdx, c.curInput
+			start, idx, inp, cb := c.caseStart, c.curIdx, c.curInput, c.caseBound
 			c.caseMu.Unlock()
 			if start == 0 {
 				continue
 			}
-			if used := cpuNow() - start; used > bound {
+			if cb == 0 {
+				cb = bound
+			}
+			if used := cpuNow() - start; used > cb {
 				buf := make([]byte, 1<<20)
 				n := runtime.Stack(buf, true)
 				w := map[string]any{"cpu_seconds": used.Seconds(), "goroutines": trunc(string(buf[:n]), 20000)}
@@ -238,7 +242,7 @@ func workerMain(p *Prop, tier string, seed uint64, shard, nshards, from, only in
 					w["input"] = inp()
 				}
 				b, _ := json.Marshal(w)
-				c.send(&msg{T: "hang", Idx: idx, Sig: "hang", Msg: fmt.Sprintf("case %d consumed %.0fs CPU without returning", idx, used.Seconds()), Wit: b})
+				c.send(&msg{T: "hang", Idx: idx, Sig: hangSig(string(buf[:n])), Msg: fmt.Sprintf("case %d consumed %.0fs CPU without returning", idx, used.Seconds()), Wit: b})
 				os.Exit(3)
 			}
 		}
@@ -261,6 +265,7 @@ func workerMain(p *Prop, tier string, seed uint64, shard, nshards, from, only in
 		c.caseMu.Lock()
 		c.curIdx = idx
 		c.caseStart = cpuNow()
+		c.caseBound = 0
 		c.curInput = nil
 		c.caseMu.Unlock()
 		p.Run(c, idx)
@@ -275,6 +280,96 @@ func workerMain(p *Prop, tier string, seed uint64, shard, nshards, from, only in
 	}
 	c.flush()
 	c.send(&msg{T: "done"})
+}
+
+// CPUBound lowers the CPU bound for the rest of the current case (for tiny
+// directed inputs, where the default bound would only burn time).
+func (c *Ctx) CPUBound(d time.Duration) {
+	c.flush() // the case may end the worker: do not lose the counters of the cases before it
+	c.caseMu.Lock()
+	c.caseBound = d
+	c.caseMu.Unlock()
+}
+
+const modPath = "github.com/markusmobius/go-domdistiller"
+
+// hangSig names the call site of a non-terminating call: the chain of
+// functions from the public entry point of the library inwards (each function
+// once), up to and including the first function outside the library (long
+// chains keep the entry point, the last two library functions and the function
+// called). For a loop inside the library the chain is cut after the 8
+// outermost functions, which do not depend on the moment the stack was sampled.
+func hangSig(dump string) string {
+	best := ""
+	for _, g := range strings.Split(dump, "\n\n") {
+		if !strings.Contains(g, modPath) {
+			continue
+		}
+		if best == "" || strings.Contains(g, "main.(*Ctx).Guard") {
+			best = g
+		}
+	}
+	if best == "" {
+		return "hang"
+	}
+	var fns []string // innermost first
+	for _, ln := range strings.Split(best, "\n")[1:] {
+		if ln == "" || ln[0] == '\t' || strings.HasPrefix(ln, "created by") {
+			continue
+		}
+		if i := strings.LastIndex(ln, "("); i > 0 {
+			ln = ln[:i]
+		}
+		fns = append(fns, ln)
+	}
+	// outermost library frame = the entry point
+	entry := -1
+	for i := len(fns) - 1; i >= 0; i-- {
+		if strings.HasPrefix(fns[i], modPath) {
+			entry = i
+			break
+		}
+	}
+	if entry < 0 {
+		return "hang"
+	}
+	short := func(s string) string {
+		if strings.HasPrefix(s, modPath) {
+			s = "dd" + strings.TrimPrefix(s, modPath)
+			if i := strings.LastIndex(s, "/"); i >= 0 {
+				s = "dd/" + s[i+1:]
+			}
+			return s
+		}
+		if i := strings.LastIndex(s, "/"); i >= 0 {
+			s = s[i+1:]
+		}
+		return s
+	}
+	var chain []string
+	seen := map[string]bool{}
+	external := false
+	for i := entry; i >= 0; i-- {
+		name := short(fns[i])
+		if strings.Contains(name, ".func") { // closures carry compiler-chosen numbers
+			continue
+		}
+		if !seen[name] {
+			seen[name] = true
+			chain = append(chain, name)
+		}
+		if !strings.HasPrefix(fns[i], modPath) {
+			external = true
+			break
+		}
+	}
+	if external && len(chain) > 4 {
+		// entry point, the two library functions around the call, the function called
+		chain = append([]string{chain[0], ".."}, chain[len(chain)-3:]...)
+	} else if !external && len(chain) > 8 {
+		chain = chain[:8]
+	}
+	return "hang:" + strings.Join(chain, ">")
 }
 
 // SetInput registers a lazily materialised description of the call in flight
@@ -297,22 +392,23 @@ type violation struct {
 }
 
 type Parent struct {
-	Prop     *Prop
-	Tier     string
-	Seed     uint64
-	mu       sync.Mutex
-	Counters map[string]int64
-	sigs     map[uint64]struct{}
-	samples  []json.RawMessage
-	calls    int64
-	cases    int64
-	viols    []violation
-	inconcl  int64
-	unobs    int64
-	notes    []string
-	scratch  string
-	verifDir string
-	hangs    int // cases reported as non-terminating so far
+	Prop      *Prop
+	Tier      string
+	Seed      uint64
+	mu        sync.Mutex
+	Counters  map[string]int64
+	sigs      map[uint64]struct{}
+	samples   []json.RawMessage
+	calls     int64
+	cases     int64
+	viols     []violation
+	inconcl   int64
+	unobs     int64
+	notes     []string
+	scratch   string
+	verifDir  string
+	hangs     int             // cases reported as non-terminating so far
+	knownSigs map[string]bool // signatures of the listed known findings of this property
 }
 
 func (p *Parent) absorb(m *msg) {
@@ -433,7 +529,9 @@ func (p *Parent) runShard(exe string, shard, nshards int, wg *sync.WaitGroup) {
 						if m.T == "hang" {
 							hang = true
 							p.mu.Lock()
-							p.hangs++
+							if !p.knownSigs[m.Sig] {
+								p.hangs++ // listed findings do not count towards the bail-out
+							}
 							p.mu.Unlock()
 						}
 						p.absorb(&m)
@@ -539,7 +637,12 @@ func parentMain(p *Prop, tier string, seed uint64, verifDir, outDir string, only
 	scratch := filepath.Join(outDir, ".scratch", fmt.Sprintf("%s-%d", p.ID, os.Getpid()))
 	os.MkdirAll(scratch, 0o755)
 	defer os.RemoveAll(scratch)
-	par := &Parent{Prop: p, Tier: tier, Seed: seed, Counters: map[string]int64{}, sigs: map[uint64]struct{}{}, scratch: scratch, verifDir: verifDir}
+	par := &Parent{Prop: p, Tier: tier, Seed: seed, Counters: map[string]int64{}, sigs: map[uint64]struct{}{}, scratch: scratch, verifDir: verifDir, knownSigs: map[string]bool{}}
+	for _, f := range loadFindings(filepath.Join(verifDir, "known_findings.txt")) {
+		if f.Prop == p.ID {
+			par.knownSigs[f.Sig] = true
+		}
+	}
 
 	nw := p.Workers
 	if nw == 0 {
@@ -603,6 +706,7 @@ func parentMain(p *Prop, tier string, seed uint64, verifDir, outDir string, only
 	exit := 0
 	nViol := 0
 	knownPrinted := map[string]bool{}
+	knownSeen := []string{}
 	for i := range par.viols {
 		v := &par.viols[i]
 		known := false
@@ -611,7 +715,8 @@ func parentMain(p *Prop, tier string, seed uint64, verifDir, outDir string, only
 				known = true
 				if !knownPrinted[f.Sig] {
 					knownPrinted[f.Sig] = true
-					fmt.Printf("KNOWN-FINDING: property=%s %s\n", p.ID, strings.TrimPrefix(f.Text, "finding:"))
+					fmt.Printf("KNOWN-FINDING: %s\n", strings.TrimSpace(strings.TrimPrefix(f.Text, "finding:")))
+					knownSeen = append(knownSeen, f.Sig)
 				}
 			}
 		}
@@ -657,6 +762,7 @@ func parentMain(p *Prop, tier string, seed uint64, verifDir, outDir string, only
 		"samples":             par.samples,
 		"observed":            par.Counters,
 		"inconclusive":        par.inconcl,
+		"known_findings_seen": knownSeen,
 		"workers":             nw,
 	}
 	if p.Exhaustive != nil && p.Exhaustive(tier) {
